@@ -710,14 +710,18 @@ class MemorizedFunc(Logger):
         # also renders us robust to variations of the files when the
         # in-memory version of the code does not vary
         try:
-            if self.func in _FUNCTION_HASHES:
+            # Read the table only once: another thread calling Memory.clear()
+            # empties it concurrently.
+            stored_func_hash = _FUNCTION_HASHES.get(self.func)
+            if stored_func_hash is not None:
                 # We use as an identifier the id of the function and its
                 # hash. This is more likely to falsely change than have hash
                 # collisions, thus we are on the safe side.
                 func_hash = self._hash_func()
-                if func_hash == _FUNCTION_HASHES[
-                    self.func
-                ] and func_hash == _FUNCTION_ID_HASHES.get(self._func_id_key()):
+                if (
+                    func_hash == stored_func_hash
+                    and func_hash == _FUNCTION_ID_HASHES.get(self._func_id_key())
+                ):
                     return True
         except TypeError:
             # Some callables are not hashable
